@@ -838,6 +838,78 @@ pub fn floor(ctx: &Ctx) -> Vec<(String, bool)> {
     f
 }
 
+/// FCI bodies of every length 0..=40 (three fills) on their own and behind each feedback header,
+/// RPSI with every PB value on the short ones.
+fn fci_lengths(ctx: &mut Ctx) {
+    for len in 0..=40usize {
+        for fill in [0u8, 0xff, 0x5a] {
+            let fci = vec![fill; len];
+            check(ctx, &fci);
+            for (pt, fmt) in [(205u8, 1u8), (206, 1), (206, 2), (206, 3), (206, 4)] {
+                let mut v = vec![0x80 | fmt, pt, 0, 0, 0, 0, 0, 1, 0, 0, 0, 2];
+                v.extend_from_slice(&fci);
+                while v.len() % 4 != 0 {
+                    v.push(fill);
+                }
+                gb::fix_len(&mut v);
+                check(ctx, &v);
+                // RPSI with every PB for short bodies
+                if fmt == 3 && len >= 2 && len <= 12 && fill == 0 {
+                    for pb in 0..=255u8 {
+                        v[12] = pb;
+                        check(ctx, &v);
+                    }
+                }
+                // the same control information in front of a padding trailer whose count is and is not a multiple of 4
+                if len % 4 == 0 && fill != 0 {
+                    for pad in [1u8, 2, 3, 4, 5, 7, 8] {
+                        let mut w = v.clone();
+                        w[0] |= 0x20;
+                        w.extend_from_slice(&[fill; 8]);
+                        let n = w.len();
+                        w[n - 1] = pad;
+                        gb::fix_len(&mut w);
+                        check(ctx, &w);
+                    }
+                }
+            }
+        }
+    }
+}
+
+/// The sanitizer slice of the *quick* check (AddressSanitizer, ~4x): every input family of the full
+/// workload, sampled instead of enumerated, so that it costs seconds. A read outside the input that
+/// changes no result is invisible to every value oracle; it is an event only under a sanitizer.
+fn run_mid(ctx: &mut Ctx, shard: usize, nshards: usize) {
+    let mut s = Src::prng(mix(ctx.seed, 0xc01_a5a4 + shard as u64));
+    gb::header_space_sample(&mut s, ctx.n(60_000), &mut |b| check(ctx, b));
+    let n = gb::sdes_small_alphabet(1, shard, nshards, &mut |b| check(ctx, b));
+    ctx.class_add("exhaustive:sdes-bodies(1 word over {0,1,2,8} x 3 ssrc prefixes x padding 0/4/8 x SC)", n);
+    let mut v = Vec::new();
+    let mut k = 0usize;
+    for l in 0..=255usize {
+        for p in 0..=255usize {
+            k += 1;
+            // a thinned (length, prefix length) triangle: every pair near the diagonal and the edges, one in 16 elsewhere
+            let near = l <= 2 || p <= 2 || l >= 253 || p >= 253 || (l as isize - p as isize).abs() <= 2;
+            if (near || k % 16 == 0) && k % nshards == shard {
+                gb::sdes_priv_packet(&mut v, l, p);
+                check(ctx, &v);
+            }
+        }
+    }
+    if shard == 0 {
+        fci_lengths(ctx);
+        let mut v = vec![0x80u8, 203, 0, 0];
+        v.resize(65540, 0);
+        check(ctx, &v);
+    }
+    for i in 0..ctx.n(80_000) {
+        let v = if i % 4 == 0 { gb::valid_packet(&mut s) } else { gb::hostile(&mut s) };
+        check(ctx, &v);
+    }
+}
+
 /// The interpreter-tier (Miri, ~100 operations/s) workload for one shard: a direct sample of each
 /// input family instead of the enumerations, a few hundred strings in total across 16 shards.
 fn run_tiny(ctx: &mut Ctx, shard: usize, nshards: usize) {
@@ -882,8 +954,11 @@ fn run_tiny(ctx: &mut Ctx, shard: usize, nshards: usize) {
 
 /// The C01 workload for one shard.
 pub fn run(ctx: &mut Ctx, shard: usize, nshards: usize) {
-    if ctx.scale < 0.5 {
+    if ctx.scale < 0.1 {
         return run_tiny(ctx, shard, nshards);
+    }
+    if ctx.scale < 0.5 {
+        return run_mid(ctx, shard, nshards);
     }
     let thorough = ctx.thorough;
     // (a) exhaustive header space (thinned over non-version-2 first bytes in quick)
@@ -917,28 +992,7 @@ pub fn run(ctx: &mut Ctx, shard: usize, nshards: usize) {
     }
     // FCI lengths 0..=40 behind each feedback header, three fills
     if shard == 0 {
-        for len in 0..=40usize {
-            for fill in [0u8, 0xff, 0x5a] {
-                let fci = vec![fill; len];
-                check(ctx, &fci);
-                for (pt, fmt) in [(205u8, 1u8), (206, 1), (206, 2), (206, 3), (206, 4)] {
-                    let mut v = vec![0x80 | fmt, pt, 0, 0, 0, 0, 0, 1, 0, 0, 0, 2];
-                    v.extend_from_slice(&fci);
-                    while v.len() % 4 != 0 {
-                        v.push(fill);
-                    }
-                    gb::fix_len(&mut v);
-                    check(ctx, &v);
-                    // RPSI with every PB for short bodies
-                    if fmt == 3 && len >= 2 && len <= 12 && fill == 0 {
-                        for pb in 0..=255u8 {
-                            v[12] = pb;
-                            check(ctx, &v);
-                        }
-                    }
-                }
-            }
-        }
+        fci_lengths(ctx);
         // (d) large inputs
         if ctx.scale >= 0.5 {
             gb::large_inputs(&mut |b| check(ctx, b));
